@@ -52,6 +52,11 @@ def inline_program(rng):
     with_calls, inlined = '', ''
     for d in defs:
         with_calls += '%s(@a; @b) {\n%s}\n' % (d['name'], body(d, '@a', '@b', '@{a}'))
+    if rng.random() < 0.5:
+        # a mixin made of nested rules only, called at the TOP level of the sheet
+        w = rng.choice(ARGS)
+        with_calls += '.cols(@w) {\n  .col-1 { width: @w; }\n  .col-2 > em { width: (@w * 2); }\n}\n.cols(%s);\n' % w
+        inlined += '.col-1 { width: %s; }\n.col-2 > em { width: (%s * 2); }\n' % (w, w)
     ncall = rng.randint(2, 4)
     for c in range(ncall):
         d = rng.choice(defs)
@@ -74,7 +79,11 @@ def run(ctx):
     progs = [inline_program(rng) for _ in range(n)]
     opts = [rng.choice(SC.ALL_OPTS) for _ in progs]
     with impl.Pool() as pool:
-        a = pool.run([{'kind': 'compile', 'text': p[0], 'opts': SC.impl_opts(o)} for p, o in zip(progs, opts)])
+        # one program in four runs right after a rejected compilation in the same worker process
+        poison = [rng.choice(SC.POISON) if rng.random() < 0.25 else None for _ in progs]
+        raw = pool.run([({'kind': 'compile_many', 'texts': [ps, p[0]], 'opts': SC.impl_opts(o)} if ps else {'kind': 'compile', 'text': p[0], 'opts': SC.impl_opts(o)})
+                        for p, o, ps in zip(progs, opts, poison)], timeout=20.0)
+        a = [(x['results'][-1] if x.get('r') == 'many' else x) for x in raw]
         b = pool.run([{'kind': 'compile', 'text': p[1], 'opts': SC.impl_opts(o)} for p, o in zip(progs, opts)])
     skipped = 0
     for (wc, inl), o, x, y in zip(progs, opts, a, b):
@@ -83,7 +92,7 @@ def run(ctx):
             skipped += 1            # the hand-inlined text itself is not accepted (not a statement about calls)
             continue
         if x.get('r') != 'ok' or x['css'] != y['css']:
-            out['spec_mismatch'].append({'input': {'text': wc, 'inlined': inl, 'opts': o}, 'impl': x, 'spec': {'the hand-inlined program compiles to': y}, 'classes': []})
+            out['spec_mismatch'].append({'input': {'text': wc, 'inlined': inl, 'opts': o, 'preceded_by': poison[progs.index((wc, inl))]}, 'impl': x, 'spec': {'the hand-inlined program compiles to': y}, 'classes': []})
     out.setdefault('distribution', {})['inline_oracle'] = {'programs': len(progs), 'inlined_text_rejected': skipped}
     return out
 
